@@ -2118,8 +2118,11 @@ pub fn run_fault_one(ctx: &mut Ctx, scn: &StoreScn) {
             }
         }
         drop(h);
+        // failures injected while the store was being closed (a drop cannot report anything)
+        let mut errs_after_close = e0;
         if store.is_none() {
             ctx.join_others();
+            errs_after_close = errors_seen(ctx.sim);
             match open_store(ctx, &rel, &cfg) {
                 Ok(s) => store = Some(s),
                 Err(e) => {
@@ -2145,7 +2148,15 @@ pub fn run_fault_one(ctx: &mut Ctx, scn: &StoreScn) {
         // made on behalf of a client operation: it is logged, and the store must stay consistent
         let me = ctx.me;
         let background_fault = faulted_here && fsim::with_fs(ctx.sim, |fs| fs.log.iter().any(|r| r.injected && r.res < 0 && !r.what.ends_with("eintr") && r.tid != me));
+        let only_while_closing = faulted_here && errs_after_close > e0 && errors_seen(ctx.sim) == errs_after_close;
         match (&outcome, faulted_here) {
+            (Ok(()), true) if only_while_closing => {
+                // work a store does while it is dropped (flushing, writing an optional hint
+                // file) has no caller to report a failure to; everything the reopened store says
+                // is still compared with the model below
+                fault_op = Some(format!("{} (while the store was being closed)", desc));
+                ctx.sim.probe("fault_while_closing_cannot_be_reported");
+            }
             (Ok(()), true) if background_fault => {
                 fault_op = Some(format!("a background task during {}", desc));
                 ctx.sim.probe("fault_in_background_task");
